@@ -24,6 +24,24 @@ def mc_api(maxcalls=4, ops=("addPeer", "deletePeer", "serve", "close", "getPeer"
     return ("MC_Api", cfg, workers or C.NCPU, timeout)
 
 
+def mc_timed(maxnow=14, conns=2, msgs=3, passive=False, alphabet=("open3", "ka", "notif"), inv="TimedInv", reach=False,
+             workers=None, timeout=3000):
+    """MC_Timed: explicit (scaled) time; hold/keepalive timers, dial pacing, hold-down ladder."""
+    cfg = ("SPECIFICATION TSpec\nCONSTANTS\n  Timed = TRUE\n  RecordOut = FALSE\n  KnownD14 = FALSE\n  MaxNow = %d\n"
+           "  TMaxConns = %d\n  TMaxMsgs = %d\n  TPassive = %s\n  TAlphabet = {%s}\n"
+           "  Sec <- TSec\n  LongHold <- TLongHold\n  DampMin <- TDampMin\n  DampMax <- TDampMax\n  Amnesia <- TAmnesia\n"
+           "INVARIANT %s\nCHECK_DEADLOCK FALSE\nVIEW TView\n") % (
+        maxnow, conns, msgs, "TRUE" if passive else "FALSE", ", ".join('"%s"' % a for a in alphabet), inv)
+    t = ("MC_Timed", cfg, workers or C.NCPU, timeout)
+    return t + (inv,) if reach else t
+
+
+# the hold-down ladder reaches its cap and the amnesia reset (passive peer, one NOTIFICATION per connection): 5 s each
+MC_DAMP = [mc_timed(26, 2, 1, True, ("notif",)), mc_timed(14, 3, 1, True, ("notif",)),
+           mc_timed(14, 3, 1, True, ("notif",), inv="NeverMax", reach=True),
+           mc_timed(26, 2, 1, True, ("notif",), inv="NeverAmnesia", reach=True)]
+
+
 def has_cb(res, name, n=1):
     return sum(1 for e in syscheck.events_of(res) if e["e"] == "cb" and e["n"] == name) >= n
 
@@ -119,8 +137,9 @@ prop("C12",
      specgen=(30, 1000),
      scripts=lambda tier, rnd: S.damping() + S.damping_exact() + S.pm_gates() + sample(S.fin_mid_message(), rnd, 24 if tier == "thorough" else 8) + (S.damping_matrix() if tier == "thorough" else sample(S.damping_matrix(), rnd, 60)) + S.collision_racy(rnd, 300 if tier == "thorough" else 12) +
      (S.damping_random(rnd, 500) if tier == "thorough" else S.damping_random(rnd, 15)),
-     mc=lambda tier: [mc_pair(["openLo", "ka", "notif"])] if tier == "quick" else
-     [mc_pair(["openLo", "ka", "notif", "cease"], dials=2), mc_pair(["openLo", "ka", "fault", "openBad"], dials=2)],
+     mc=lambda tier: [mc_pair(["openLo", "ka", "notif"])] + MC_DAMP if tier == "quick" else
+     [mc_pair(["openLo", "ka", "notif", "cease"], dials=2), mc_pair(["openLo", "ka", "fault", "openBad"], dials=2)] + MC_DAMP +
+     [mc_timed(18, 3, 1, False, ("notif",)), mc_timed(14, 2, 3, False, ("open3", "ka", "notif"))],
      nontrivial=lambda s, r: "damp" in s.get("tags", ()) or "nodamp" in s.get("tags", ()),
      rule="error kinds (received codes 1-5,7; sent header/OPEN/FSM/hold/handler errors) x direction, probes 1/3 ms around every "
           "threshold (60 s, doubling, 300 s cap, 300 s amnesia), and non-damping faults; exact virtual time")
@@ -128,8 +147,10 @@ prop("C12",
 prop("C11",
      specgen=(30, 1000),
      scripts=lambda tier, rnd: S.inbound_drop() + (S.pacing() if tier == "thorough" else sample(S.pacing(), rnd, 70)),
-     mc=lambda tier: [mc_pair(["openLo", "ka", "cease"], conns=1, msgs=3, dials=3)] if tier == "quick" else
-     [mc_pair(["openLo", "ka", "cease"], conns=2, msgs=2, dials=3)],
+     mc=lambda tier: [mc_pair(["openLo", "ka", "cease"], conns=1, msgs=3, dials=3), mc_timed(10, 1, 3, False, ("open3", "ka", "cease")),
+                      mc_timed(9, 2, 2, False, ("open3", "cease")), mc_timed(12, 2, 3, True, ("open3", "ka", "cease"))] if tier == "quick" else
+     [mc_pair(["openLo", "ka", "cease"], conns=2, msgs=2, dials=3), mc_timed(14, 2, 3, False, ("open3", "ka", "notif")),
+      mc_timed(12, 2, 3, True, ("open3", "ka", "cease")), mc_timed(12, 2, 2, False, ("open3", "cease"))],
      nontrivial=lambda s, r: sum(1 for e in syscheck.events_of(r) if e["e"] == "dial") >= 2 or "passive" in s.get("tags", ()),
      rule="fault sequences over {refuse, EOF at state s, Cease, stall, reset} x (idle-hold, connect-retry) settings followed by a "
           "cooperative remote; dial attempts carry exact virtual timestamps; non-trivial = at least two dial attempts (or passive)")
@@ -138,7 +159,9 @@ prop("C06",
      scripts=lambda tier, rnd: S.two_sessions() + S.slow_callbacks() + S.holdgrid() if tier == "quick" else S.two_sessions() + S.slow_callbacks() +
      S.holdgrid([(a, b) for a in (0, 3, 4, 9, 10, 30, 90, 180, 240, 65535) for b in (0, 3, 4, 9, 10, 30, 90, 180, 240, 65535)],
                 rnd, 60),
-     mc=lambda tier: [mc_pair(["openLo", "ka", "upd"], conns=1, msgs=3)],
+     mc=lambda tier: [mc_pair(["openLo", "ka", "upd"], conns=1, msgs=3), mc_timed(14, 1, 4, False, ("open3", "open0", "ka", "upd")),
+                      mc_timed(10, 1, 3, False, ("open3", "ka"), inv="NeverEstablished", reach=True)] +
+     ([mc_timed(12, 2, 3, False, ("open9", "open0", "ka", "upd"))] if tier == "thorough" else []),
      nontrivial=lambda s, r: has_cb(r, "OnOpenMessage"),
      rule="(local, remote) hold-time grid x traffic patterns (silent, KEEPALIVE-only, UPDATE-only, late, local writes); every "
           "KEEPALIVE and Hold Timer Expired NOTIFICATION must carry exactly the specified virtual timestamp")
